@@ -359,8 +359,14 @@ func (c *leafCtx) effectsOfCalls(n ast.Node, local map[string]bool, out map[stri
 func (c *leafCtx) assigned7(stmts []ast.Stmt, local map[string]bool, out map[string]bool) {
 	local = copyMap(local)
 	markL := func(e ast.Expr) {
-		if id := baseIdent(e); id != nil && id.Name != "_" && !local[id.Name] {
-			out[id.Name] = true
+		if id := baseIdent(e); id != nil && id.Name != "_" {
+			if tgt, isAlias := c.aliasOf[id.Name]; isAlias {
+				out[tgt] = true
+				return
+			}
+			if !local[id.Name] {
+				out[id.Name] = true
+			}
 		}
 	}
 	for _, s := range stmts {
@@ -893,6 +899,18 @@ func (c *leafCtx) assign7(st *ast.AssignStmt, next func(string) string, ind stri
 		}
 		rhs = &ast.BinaryExpr{X: lhs, Op: op, Y: rhs}
 	}
+	if id, ok := lhs.(*ast.Ident); ok && st.Tok == token.DEFINE && id.Name != "_" { // buf := *b: another name for the same slice
+		if tgt, isAlias := c.aliasOf[id.Name]; isAlias {
+			if bi := baseIdent(rhs); bi != nil && bi.Name == tgt {
+				if _, vis := c.vars[tgt]; vis {
+					c.vars[id.Name] = c.vars[tgt]
+					c.declDepth[id.Name] = c.depth
+					c.ren[id.Name] = c.lname(tgt)
+					return next(ind)
+				}
+			}
+		}
+	}
 	if id, ok := lhs.(*ast.Ident); ok {
 		if id.Name == "_" { // `_ = b[47]`: evaluated for its bounds check
 			c.expr(rhs, "")
@@ -954,16 +972,30 @@ func (c *leafCtx) assign7(st *ast.AssignStmt, next func(string) string, ind stri
 				return "0"
 			}
 			return c.takeBinds(ind) + c.letLine(name, c.vars[base.Name], val) + nl + next(ind)
-		case strings.HasPrefix(ct, "L_"):
-			et := strings.TrimPrefix(ct, "L_")
-			i, _ := c.expr(ix.Index, "Int64")
+		case strings.HasPrefix(ct, "L_") || strings.HasPrefix(ct, "C_"):
+			et := ct[2:]
+			isSlice := strings.HasPrefix(ct, "C_")
+			k, isConst := c.constIndex(ix.Index)
+			i := ""
+			if !isConst {
+				i, _ = c.expr(ix.Index, "Int64")
+			}
 			v, vt := c.expr(rhs, et)
 			if vt != "" && vt != et {
 				c.fail("slice element of type %s assigned a %s", et, vt)
 			}
 			c.nfresh++
 			tmp := fmt.Sprintf("_s%d", c.nfresh)
-			c.binds = append(c.binds, c.bindLine("(Go.setG? "+coll+" "+i+" "+v+")", tmp, "opt:index"))
+			op := "(Go.setG? " + coll + " " + i + " " + v + ")"
+			switch {
+			case isSlice && isConst:
+				op = "(Go.Slice.setK? " + coll + " " + strconv.Itoa(k) + " " + v + ")"
+			case isSlice:
+				op = "(Go.Slice.set? " + coll + " " + i + " " + v + ")"
+			case isConst:
+				op = "(Go.setK? " + coll + " " + strconv.Itoa(k) + " " + v + ")"
+			}
+			c.binds = append(c.binds, c.bindLine(op, tmp, "opt:index"))
 			name, val, ok := c.assignPath(ix.X, tmp)
 			if !ok {
 				c.fail("unsupported slice assignment target")
@@ -1541,6 +1573,22 @@ func (c *leafCtx) fresh(prefix string) string {
 	return fmt.Sprintf("%s%d", prefix, c.nfresh)
 }
 
+// constIndex: the value of an index expression that is a constant (no variable of the function in it)
+func (c *leafCtx) constIndex(e ast.Expr) (int, bool) {
+	if c.mentionsVar(e) {
+		return 0, false
+	}
+	v := c.ev.eval(e, 0)
+	if v.Kind() != constant.Int {
+		return 0, false
+	}
+	n, err := strconv.Atoi(v.ExactString())
+	if err != nil || n < 0 {
+		return 0, false
+	}
+	return n, true
+}
+
 // expr7 translates the expression forms of the seventh generation; ok = false: not one of them
 func (c *leafCtx) expr7(e ast.Expr, want string) (string, string, bool) {
 	switch x := e.(type) {
@@ -1569,16 +1617,37 @@ func (c *leafCtx) expr7(e ast.Expr, want string) (string, string, bool) {
 				c.fail("map element type without a zero value")
 			}
 			return "(Go.Map.getD " + xs + " " + k + " " + z + ")", parts[2], true
+		case strings.HasPrefix(xt, "A") && xt != "ActList":
+			n, et := arrayParts(xt)
+			if k, ok := c.constIndex(x.Index); ok && k < n {
+				return "(Go.arrGet " + xs + " " + strconv.Itoa(k) + " " + c.zero(et) + ")", et, true
+			}
+			c.fail("array index that is not a constant in range")
+			return "0", want, true
+		case strings.HasPrefix(xt, "C_"):
+			v := c.fresh("_i")
+			if k, ok := c.constIndex(x.Index); ok {
+				c.binds = append(c.binds, c.bindLine("(Go.Slice.getK? "+xs+" "+strconv.Itoa(k)+")", v, "opt:index"))
+			} else {
+				is, _ := c.expr(x.Index, "Int64")
+				c.binds = append(c.binds, c.bindLine("(Go.Slice.get? "+xs+" "+is+")", v, "opt:index"))
+			}
+			return v, strings.TrimPrefix(xt, "C_"), true
+		case strings.HasPrefix(xt, "L_") && xt != "L_Int64":
+			if k, ok := c.constIndex(x.Index); ok {
+				v := c.fresh("_i")
+				c.binds = append(c.binds, c.bindLine("(Go.getK? "+xs+" "+strconv.Itoa(k)+")", v, "opt:index"))
+				return v, strings.TrimPrefix(xt, "L_"), true
+			}
+			is, _ := c.expr(x.Index, "Int64")
+			v := c.fresh("_i")
+			c.binds = append(c.binds, c.bindLine("(Go.idxG? "+xs+" "+is+")", v, "opt:index"))
+			return v, strings.TrimPrefix(xt, "L_"), true
 		case xt == "L_Int64":
 			is, _ := c.expr(x.Index, "Int64")
 			v := c.fresh("_i")
 			c.binds = append(c.binds, c.bindLine("(Go.idx? "+xs+" "+is+")", v, "opt:index"))
 			return v, "Int64", true
-		case strings.HasPrefix(xt, "C_"):
-			is, _ := c.expr(x.Index, "Int64")
-			v := c.fresh("_i")
-			c.binds = append(c.binds, c.bindLine("(Go.Slice.get? "+xs+" "+is+")", v, "opt:index"))
-			return v, strings.TrimPrefix(xt, "C_"), true
 		case strings.HasPrefix(xt, "L_") || strings.HasPrefix(xt, "A"):
 			et := strings.TrimPrefix(xt, "L_")
 			if n, at := arrayParts(xt); n >= 0 && !strings.HasPrefix(xt, "L_") {
@@ -1602,6 +1671,26 @@ func (c *leafCtx) expr7(e ast.Expr, want string) (string, string, bool) {
 		c.fail("unsupported slice expression")
 		return "0", want, true
 	case *ast.CompositeLit:
+		if at, isArr := x.Type.(*ast.ArrayType); isArr && at.Len != nil { // [N]T{e0, …}: all N elements given
+			lt := c.leanType(at)
+			n, et := arrayParts(lt)
+			if n < 0 || len(x.Elts) != n {
+				c.fail("array literal that does not list all its elements")
+				return "0", "", true
+			}
+			var parts []string
+			for _, el := range x.Elts {
+				if _, isKV := el.(*ast.KeyValueExpr); isKV {
+					c.fail("keyed array literal")
+				}
+				v, vt := c.expr(el, et)
+				if vt != et && vt != "" {
+					c.fail("array element of type %s in an array of %s", vt, et)
+				}
+				parts = append(parts, v)
+			}
+			return "[" + strings.Join(parts, ", ") + "]", lt, true
+		}
 		tn := typeName(x.Type)
 		fs, ok := c.structs[tn]
 		if !ok || x.Type == nil {
@@ -1689,6 +1778,13 @@ func (c *leafCtx) expr7(e ast.Expr, want string) (string, string, bool) {
 				c.fail("append to a slice modelled without a capacity")
 				return "0", want, true
 			case "make":
+				if len(x.Args) == 2 && strings.HasPrefix(want, "C_") && c.leanType(x.Args[0]) == "L_"+strings.TrimPrefix(want, "C_") {
+					if n, ok := c.constIndex(x.Args[1]); ok { // make([]T, N) for a slice modelled with its capacity
+						if z := c.zero(strings.TrimPrefix(want, "C_")); z != "" {
+							return "(Go.Slice.make " + z + " " + strconv.Itoa(n) + " " + strconv.Itoa(n) + " (Nat.le_refl _))", want, true
+						}
+					}
+				}
 				if len(x.Args) == 2 && c.leanType(x.Args[0]) == "L_UInt8" {
 					if v := c.ev.eval(x.Args[1], 0); v.Kind() != 0 && !c.mentionsVar(x.Args[1]) {
 						if n, err := strconv.Atoi(v.ExactString()); err == nil && n >= 0 {
@@ -1940,7 +2036,8 @@ func (c *leafCtx) translate7(ds *dirState, l leaf7Spec, fd *ast.FuncDecl, fset *
 		}
 		c.vars[n] = lt
 		c.declDepth[n] = 1
-		if _, isPtr := t.(*ast.StarExpr); isPtr {
+		_, isPtr := t.(*ast.StarExpr)
+		if isPtr || strings.HasPrefix(lt, "L_") { // a slice parameter whose elements the body writes is handed back as well
 			ptrs = append(ptrs, n)
 			ptrPos[n] = pos
 		}
@@ -1960,6 +2057,7 @@ func (c *leafCtx) translate7(ds *dirState, l leaf7Spec, fd *ast.FuncDecl, fset *
 	if c.err != nil {
 		return "", nil
 	}
+	c.aliasOf = findAliases(fd, c)
 	for _, n := range ptrs {
 		if c.assignsTarget(fd, n) {
 			c.outs = append(c.outs, n)
@@ -2127,6 +2225,11 @@ var leaves7 = []leaf7Spec{
 	{"base/crypto", "Sample", "crypto_Sample", "LeafCrypto"},
 	{"core/client", "LuckyPacketFilter.Do", "client_LuckyPacketFilter_Do", "LeafClient"},
 	{"core/client", "LuckyPacketFilter.Reset", "client_LuckyPacketFilter_Reset", "LeafClient"},
+	{"net/ntp", "Packet.SetLeapIndicator", "ntp_Packet_SetLeapIndicator", "LeafNtp"},
+	{"net/ntp", "Packet.SetVersion", "ntp_Packet_SetVersion", "LeafNtp"},
+	{"net/ntp", "Packet.SetMode", "ntp_Packet_SetMode", "LeafNtp"},
+	{"net/ntp", "EncodePacket", "ntp_EncodePacket", "LeafNtp"},
+	{"net/ntp", "DecodePacket", "ntp_DecodePacket", "LeafNtp"},
 }
 
 func emitLeaves7(repo string, parsed map[string][]*ast.File, fset *token.FileSet, leafPath string) {
@@ -2264,4 +2367,63 @@ func emitLeaves7(repo string, parsed map[string][]*ast.File, fset *token.FileSet
 		sb.WriteString("end ScionTime.Gen.Leaf\n")
 		writeIfChanged(outDir+"/"+file+".lean", sb.String())
 	}
+}
+
+// findAliases: `x := *p` / `x := p` where p is a slice-typed parameter and neither x nor p is
+// assigned as a whole afterwards: x is another name for the same slice (same array, offset and
+// length), so element writes through either are writes to the one object the translator threads.
+func findAliases(fd *ast.FuncDecl, c *leafCtx) map[string]string {
+	al := map[string]string{}
+	pos := map[string]token.Pos{}
+	ast.Inspect(fd.Body, func(n ast.Node) bool {
+		as, ok := n.(*ast.AssignStmt)
+		if !ok || as.Tok != token.DEFINE || len(as.Lhs) != 1 || len(as.Rhs) != 1 {
+			return true
+		}
+		id, ok := as.Lhs[0].(*ast.Ident)
+		if !ok {
+			return true
+		}
+		var src *ast.Ident
+		switch r := as.Rhs[0].(type) {
+		case *ast.StarExpr:
+			src, _ = r.X.(*ast.Ident)
+		case *ast.Ident:
+			src = r
+		}
+		if src == nil {
+			return true
+		}
+		if t := c.vars[src.Name]; strings.HasPrefix(t, "C_") || strings.HasPrefix(t, "L_") {
+			al[id.Name] = src.Name
+			pos[id.Name] = as.Pos()
+		}
+		return true
+	})
+	// whole-variable assignments after the alias was made break it
+	ast.Inspect(fd.Body, func(n ast.Node) bool {
+		as, ok := n.(*ast.AssignStmt)
+		if !ok {
+			return true
+		}
+		for _, l := range as.Lhs {
+			var id *ast.Ident
+			switch x := l.(type) {
+			case *ast.Ident:
+				id = x
+			case *ast.StarExpr:
+				id, _ = x.X.(*ast.Ident)
+			}
+			if id == nil {
+				continue
+			}
+			for a, tgt := range al {
+				if (id.Name == a || id.Name == tgt) && as.Pos() > pos[a] {
+					delete(al, a)
+				}
+			}
+		}
+		return true
+	})
+	return al
 }
